@@ -289,6 +289,77 @@ example : evaluateSelection (.bin .div (.lit (.int 64 true 4)) (.col 0)) {}
     [[.int 64 true 0], [.int 64 true 1], [.int 64 true 2]] [false, true, true]
     = .ok [.null, .int 64 true 4, .int 64 true 2] := by decide
 
+/-! ## AND / OR pre-selection -/
+
+theorem kleene_sel (isAnd l : Bool) (r : Tri) (h : selMask isAnd l = true) : kleene isAnd l r = r := by
+  cases isAnd <;> cases l <;> cases r <;> simp_all [selMask, kleene, Tri.ofBool, Tri.and, Tri.or]
+
+theorem kleene_unsel (isAnd l : Bool) (r : Tri) (h : selMask isAnd l = false) : kleene isAnd l r = fillTri isAnd := by
+  cases isAnd <;> cases l <;> cases r <;> simp_all [selMask, kleene, fillTri, Tri.ofBool, Tri.and, Tri.or]
+
+theorem scatterSel_spec (isAnd : Bool) (rows : List (Bool × Tri)) :
+    scatterSel isAnd (rows.map (·.1)) (selectedRhs isAnd rows) = rows.map (fun x => kleene isAnd x.1 x.2) := by
+  induction rows with
+  | nil => rfl
+  | cons x rows ih =>
+    obtain ⟨l, r⟩ := x
+    cases hm : selMask isAnd l
+    · simp only [List.map_cons, selectedRhs, scatterSel, hm, Bool.false_eq_true, if_false, ih,
+        kleene_unsel isAnd l r hm]
+    · simp only [List.map_cons, selectedRhs, scatterSel, hm, if_true, ih, kleene_sel isAnd l r hm]
+
+theorem all_t_spec (isAnd : Bool) (rows : List (Bool × Tri)) (h : (selectedRhs isAnd rows).all (· == .t) = true) :
+    rows.map (fun x => kleene isAnd x.1 x.2) =
+      (if isAnd then (rows.map (·.1)).map Tri.ofBool else (rows.map (·.1)).map (fun _ => Tri.t)) := by
+  induction rows with
+  | nil => cases isAnd <;> rfl
+  | cons x rows ih =>
+    obtain ⟨l, r⟩ := x
+    cases hm : selMask isAnd l
+    · simp only [selectedRhs, hm, Bool.false_eq_true, if_false] at h
+      have := ih h
+      cases isAnd <;> cases l <;> simp_all [selMask, kleene_unsel, fillTri, Tri.ofBool]
+    · simp only [selectedRhs, hm, if_true, List.all_cons, Bool.and_eq_true, beq_iff_eq] at h
+      obtain ⟨hr, h⟩ := h
+      subst hr
+      have := ih h
+      cases isAnd <;> cases l <;> simp_all [selMask, kleene_sel, Tri.ofBool]
+
+theorem all_f_spec (isAnd : Bool) (rows : List (Bool × Tri)) (h : (selectedRhs isAnd rows).all (· == .f) = true) :
+    rows.map (fun x => kleene isAnd x.1 x.2) =
+      (if isAnd then (rows.map (·.1)).map (fun _ => Tri.f) else (rows.map (·.1)).map Tri.ofBool) := by
+  induction rows with
+  | nil => cases isAnd <;> rfl
+  | cons x rows ih =>
+    obtain ⟨l, r⟩ := x
+    cases hm : selMask isAnd l
+    · simp only [selectedRhs, hm, Bool.false_eq_true, if_false] at h
+      have := ih h
+      cases isAnd <;> cases l <;> simp_all [selMask, kleene_unsel, fillTri, Tri.ofBool]
+    · simp only [selectedRhs, hm, if_true, List.all_cons, Bool.and_eq_true, beq_iff_eq] at h
+      obtain ⟨hr, h⟩ := h
+      subst hr
+      have := ih h
+      cases isAnd <;> cases l <;> simp_all [selMask, kleene_sel, Tri.ofBool]
+
+/-- **Pre-selection agrees with the Kleene table**: evaluating the right operand only on the rows
+    the left operand leaves undecided — with the uniform-result collapse and the scatter — gives,
+    for every batch, every NULL-free left column and every right column (NULLs included), exactly
+    `left AND right` / `left OR right` row by row. -/
+theorem preselection_agrees (isAnd : Bool) (rows : List (Bool × Tri)) :
+    preSelect isAnd (rows.map (·.1)) (selectedRhs isAnd rows) = rows.map (fun x => kleene isAnd x.1 x.2) := by
+  unfold preSelect
+  split
+  · split
+    · rename_i _ ht; exact (all_t_spec isAnd rows ht).symm
+    · split
+      · rename_i _ _ hf; exact (all_f_spec isAnd rows hf).symm
+      · exact scatterSel_spec isAnd rows
+  · exact scatterSel_spec isAnd rows
+
+example : preSelect true [false, true, false, false, false] [.u] = [.f, .u, .f, .f, .f] := by decide
+example : preSelect false [true, false, true, true, true] [.u] = [.t, .u, .t, .t, .t] := by decide
+
 /-! ## LIKE -/
 
 theorem existsSuffix_self (f : List Char → Bool) (s : List Char) (h : f s = true) : existsSuffix f s = true := by
